@@ -51,9 +51,67 @@ def showDist (s : FeeDist) : String :=
 /-- parse `a/b/c` -/
 def parseTripleSlash (s : String) : Option (List Int) := (s.splitOn "/").mapM parseInt?
 
+/-- `d` = the empty basis-points string, else decimal digits -/
+def parseBipsStr (s : String) : Option (Option Nat) :=
+  if s = "d" then some none else (parseNat? s).map some
+
+def parsePayCfg (s : String) : Option PayCfg :=
+  match s.splitOn ":" with
+  | typ :: den :: amt :: bips :: rcpt :: _ =>
+    match parseInt? amt, parseBipsStr bips with
+    | some a, some b => some { typ := typ, den := den, amt := a, bips := b, rcpt := if rcpt = "-" then "" else rcpt }
+    | _, _ => none
+  | _ => none
+
+def parsePayMsg (s : String) : Option PayMsg :=
+  match s.splitOn ":" with
+  | [typ] => some { typ := typ }
+  | ["assess", den, amt, bips, rcpt] =>
+    match parseInt? amt, parseBipsStr bips with
+    | some a, some b => some { typ := "assess", assess := some (den, a, b, if rcpt = "-" then "" else rcpt) }
+    | _, _ => none
+  | _ => none
+
+/-- `123denom` -/
+def parseCoin (s : String) : Option (Denom × Int) :=
+  let cs := s.toList
+  let ds := String.ofList (cs.takeWhile Char.isDigit)
+  let den := String.ofList (cs.dropWhile Char.isDigit)
+  if ds = "" ∨ den = "" then none else (parseInt? ds).map fun a => (den, a)
+
+structure PayIn where
+  rate : Nat
+  base : Int
+  cfg : List PayCfg
+  msgs : List PayMsg
+  fee : Coins
+
+def parsePay (ws : List String) : Option PayIn := do
+  let rate ← (kv ws "rate") >>= parseNat?
+  let base ← (kv ws "base") >>= parseInt?
+  let cfg ← (splitList ((kv ws "cfg").getD "-")).mapM parsePayCfg
+  let msgs ← (splitList ((kv ws "msgs").getD "-") ",").mapM parsePayMsg
+  let fee ← (splitList ((kv ws "fee").getD "-") ",").mapM parseCoin
+  pure { rate := rate, base := base, cfg := cfg, msgs := msgs, fee := fee }
+
+def payDenoms : List Denom := ["nhash", "hotdog"]
+
+private def perPay (f : Denom → Int) : String := "/".intercalate (payDenoms.map fun d => toString (f d))
+
+def showPay (i : PayIn) (l : Ledger) : String :=
+  let rs := distRecips.map fun r => s!"{r}={perPay (Ledger.bal l r)}"
+  let c := fun d => Coins.amountOf i.fee d - (distRecips.map fun r => Ledger.bal l r d).foldl (· + ·) 0
+  "ok " ++ " ".intercalate rs ++ s!" c={perPay c} p={perPay fun d => - Coins.amountOf i.fee d}"
+
 /-- Model output for one op line. -/
 def run (ws : List String) : String :=
   match ws with
+  | "paytx" :: rest =>
+    match parsePay rest with
+    | some i => match payTx i.rate i.cfg i.msgs with
+      | .ok l => showPay i l
+      | .error e => e
+    | none => "bad-op"
   | ["dist", calls] =>
     match (splitList calls).mapM parseDistCall with
     | some cs => showE showDist (distIncreaseAll {} cs)
@@ -91,6 +149,35 @@ private def isPanic (s : String) : Bool := s.startsWith "panic"
 def check (ws : List String) (impl : String) : String :=
   let iw := words impl
   match ws with
+  | "paytx" :: rest =>
+    match parsePay rest with
+    | some i =>
+      if impl.startsWith "bad-op" then "-"
+      else if !payWf i.cfg i.msgs then
+        -- outside the domain (a proposal or message `ValidateBasic` refuses): it must not be paid out
+        (if impl.startsWith "ok" then "fail:pay_accepts_invalid" else "ok")
+      -- the fee offered has to cover the base fee and the additional fees
+      else if payDenoms.any (fun d => Coins.amountOf i.fee d < (if d = "nhash" then i.base else 0) + payTotal i.rate i.cfg i.msgs d) then "-"
+      else if !fits256 (Coins.amountOf i.fee "nhash") ∨ !fits256 (Coins.amountOf i.fee "hotdog") then "-"
+      else
+      match iw with
+      | "ok" :: out =>
+        match (distRecips.mapM fun r => (kv out r) >>= parseTripleSlash), (kv out "c") >>= parseTripleSlash,
+              (kv out "p") >>= parseTripleSlash with
+        | some rs, some c, some p =>
+          let idx := List.range payDenoms.length
+          let get := fun (xs : List Int) (k : Nat) => xs.getD k 0
+          -- every recipient is paid exactly the sum of its shares, each rounded down
+          if (distRecips.zip rs).any (fun (r, x) => idx.any fun k => get x k ≠ payWant i.rate i.cfg i.msgs r (payDenoms.getD k "")) then
+            "fail:pay_recipient_share"
+          -- the parts add up to the whole fee: collector + recipients = what the payer paid = the fee
+          else if idx.any (fun k => get c k + (rs.map fun x => get x k).foldl (· + ·) 0 ≠ Coins.amountOf i.fee (payDenoms.getD k "")
+                                    ∨ get p k ≠ - Coins.amountOf i.fee (payDenoms.getD k "")) then "fail:pay_adds_up"
+          else if (c ++ rs.flatten).any (· < 0) then "fail:nonneg"
+          else "ok"
+        | _, _, _ => "fail:unparsed"
+      | _ => "fail:never_fails:paytx"
+    | none => "-"
   | ["dist", calls] =>
     match (splitList calls).mapM parseDistCall with
     | some cs =>
